@@ -45,10 +45,11 @@ ASSUMPTIONS = [
     "(defaults store_idx1/store_idx2/store_dist; calls with other store fields or another feature are outside the quantifier)",
     "entry and exit lists are paired BY ROW: row k of both lists is the same particle (cryoCAT takes the entry row and the exit site at the "
     "same position inside each tomogram subset, and looks the subtomo_id of an EXIT row up among traced ENTRY rows in add_chain_suffix), "
-    "so in-domain inputs have equal subtomo_id and tomo_id row by row; subtomo_ids are unique over the list; pandas index labels are unique "
-    "(observation, outside the quantifier by the lead's ruling: Motl inputs whose index carries DUPLICATE labels, e.g. Motl(pd.concat([a.df, b.df])), "
-    "make trace_chains raise ValueError in its label lookups `motl.df.loc[motl.df.index[k], 'subtomo_id']`; permuted, reversed, gapped and "
-    "string-label indexes are handled and are generated)",
+    "so in-domain inputs have equal subtomo_id and tomo_id row by row; subtomo_ids are unique over the list; the index labels of a Motl OBJECT are unique "
+    "(outside the quantifier by the lead's ruling, counted out of domain: Motl objects with REPEATED index labels - Motl(pd.concat([a.df, b.df])), or the "
+    "Motl returned by trace_chains itself fed back in - make cryoCAT's label lookups `motl.df.loc[motl.df.index[k], 'subtomo_id']` raise ValueError; "
+    "DataFrame arguments with repeated labels, incl. the returned table res.df fed back, are inside and generated, as are permuted / reversed / gapped / "
+    "string-label indexes on both forms)",
     "site = (x+shift_x, y+shift_y, z+shift_z) of the respective list; distance = Euclidean norm in float64; tolerance 1e-9 on the recorded value",
     "bounds are decided, not avoided: (a) pairs whose two sites and both bounds lie on the 1/8 lattice (|value| < 2**20) are decided exactly on the "
     "squares: d == min_distance is outside (exclusive lower bound, incl. d == 0 with min_distance == 0: an entry site exactly ON an exit site must "
@@ -68,6 +69,11 @@ ASSUMPTIONS = [
     "tomogram ids 1..299, adjacent just above 1e5 and adjacent above 2**24; ids additionally 2**24+n, 2**31+n, 2**53-70+n; the pandas index of the "
     "two Motl lists differs in 7 of 8 index presentations (range/permuted/gaps/reversed/string labels, cycled); in-place histories: the caller's own "
     "DataFrame / Motl / EM file is overwritten between the first and second and again before the third call",
+    "argument SHAPES cycled deterministically, values unchanged: geom4/object_id/geom2 as int64 or int32, whole table allocated as integers with only "
+    "x,y,z real (pd.DataFrame(0, ...)), column order canonical/reversed/permuted, one consolidated C / Fortran-ordered / read-only block, DataFrame.attrs "
+    "and an extra Motl attribute, EM files named *_ribosome.em / *frame.em / in 'sub dir/t\u00fcb\u00ef/[..] b*?.em' / without extension / relative to cwd, the "
+    "loader's returned object instead of the path, max_distance / min_distance as float, np.float64, 0-d array, int, np.int64(0), -0.0, omitted; "
+    "ids and tomogram ids that are 0; float32-typed tables are outside the quantifier and not generated",
     "the value recorded on the LAST member of a chain is not constrained by the property (cryoCAT leaves stale values there after a cut) "
     "and is not judged; object numbers need not be contiguous",
     "the false side of `if cl_max > 1` in trace_chains is unreachable (after a successful suffix join every order number of the new chain is "
@@ -82,7 +88,7 @@ CLASSES = ["random_cluster", "late_suitors", "candidate_forest", "line_mid_start
            "bound_slivers", "same_chain_exact_tie", "bound_slivers_2", "same_chain_exact_tie_2"]
 
 CLAUSES = ["partition", "tomogram", "orders", "link_range", "link_recorded"]
-ID_KINDS = ["seq", "big100k", "shuffled_gaps", "big17M", "big2p24", "big2p31", "near2p53"]
+ID_KINDS = ["seq", "big100k", "shuffled_gaps", "big17M", "big2p24", "seq0", "big2p31", "near2p53"]
 
 BR_NN = {"nn_empty_radius": ("return -1, []", 0), "nn_none_active": ("return -1, []", 1), "nn_min_filter": "rp_idx = rp_idx[rp_dist >",
          "nn_none_after_min": ("return -1, []", 2), "nn_found": "return rp_idx[0], rp_dist[0]"}
@@ -743,10 +749,14 @@ def _tables(rng, E, X, tomo_idx, pres):
     tl = np.sort(rng.choice(np.arange(1, 300), size=int(tomo_idx.max()) + 1, replace=False)).astype(float)
     if pres.get("tomo_ids") in ("adjacent_1e5", "adjacent_2p24"):
         tl = {"adjacent_1e5": 100000.0 * float(rng.integers(1, 9)), "adjacent_2p24": 2.0 ** 24}[pres["tomo_ids"]] + 1.0 + np.arange(len(tl), dtype=float)
+    if pres.get("tomo_ids") == "zero_based":
+        tl = np.arange(len(tl), dtype=float)           # a tomogram whose id is 0
     rng.shuffle(tl)
     de = gens.motl_table(rng, n, tomos=1)
     dx = gens.motl_table(rng, n, tomos=1)
     ids = np.arange(1, n + 1, dtype=float)
+    if pres["ids"] == "seq0":
+        ids = np.arange(0, n, dtype=float)            # an id that is 0
     if pres["ids"] == "shuffled_gaps":
         ids = rng.permutation(rng.choice(np.arange(1, 40 * n + 50), n, replace=False)).astype(float)
     elif pres["ids"] in ("big100k", "big17M", "big2p24", "big2p31", "near2p53"):
@@ -809,10 +819,23 @@ def _second_exit(rng, dx, Xpos, tomo, D, kind, pres, is_em=None):
     return dx2
 
 
+def _is_df(form, which, i):
+    """is this argument handed over as a plain DataFrame?"""
+    if form == "df":
+        return True
+    if form == "mixed":
+        return not ((which == "exit") == bool(i % 2))
+    return form == "em_df" and which == "exit"
+
+
 def _index(rng, df, kind):
     n = len(df)
     if kind == "strings":
         df.index = ["p%03d" % k for k in rng.permutation(n)]
+        return df
+    if kind == "repeated":                          # what pd.concat([a, b]) without ignore_index leaves behind
+        k = int(rng.integers(1, n)) if n > 1 else 1
+        df.index = np.concatenate([np.arange(k), np.arange(n - k)])
         return df
     if kind == "permuted":
         df.index = rng.permutation(n)
@@ -1253,17 +1276,35 @@ def gen(ctx, i, cls):
             ipair = ("permuted", "gaps")
         pres = {"form": form,
                 "ids": ID_KINDS[(v + ci) % len(ID_KINDS)] if not odd else ["shuffled_gaps", "big100k", "big17M", "big2p31"][v % 4],
-                "tomo_ids": ["small", "adjacent_1e5", "small", "adjacent_2p24"][(v // 3 + ci) % 4],
+                "tomo_ids": ["small", "adjacent_1e5", "zero_based", "adjacent_2p24", "small"][(v // 3 + ci) % 5],
                 "int_ids": bool(rng.random() < 0.3),
                 "index_e": ipair[0], "index_x": ipair[1],
                 "dirty": bool(rng.random() < 0.4), "kw": bool(rng.random() < 0.5), "min_default": bool(m == 0.0 and rng.random() < 0.5),
-                "int_min": bool(m == 0.0 and rng.random() < 0.3)}
+                "int_min": False,
+                # shape of the arguments (values unchanged): dtype of the bookkeeping columns, column order, block layout, attrs, file names, scalar kinds
+                "book_dtype": ["float", "int64", "float", "int32", "int_table", "int64"][(v + 2 * ci) % 6],
+                "col_order": ["canonical", "reversed", "permuted"][(v // 2 + ci) % 3],
+                "layout": ["columns", "single_block", "single_block_readonly", "fortran_block"][(v + ci) % 4],
+                "attrs": bool((v + ci) % 3 == 0),
+                "path_kind": ["plain", "ribosome.em", "frame.em", "subdir_special", "noext", "relative"][(v + ci) % 6],
+                "loader_object": bool((v // 2 + ci) % 3 == 0),
+                "min_style": (["omitted", "pos_int0", "kw_float0", "np_int64", "neg_zero", "np_float64", "zero_d"][(v + ci) % 7] if m == 0.0
+                              else ["float", "np_float64", "zero_d", "float"][(v + ci) % 4]),
+                "max_style": ["float", "np_float64", "zero_d", "int_if_integral"][(v // 2 + ci) % 4],
+                "feed_back": bool((v + ci) % 4 == 1)}
+        pres["min_default"] = pres["min_style"] == "omitted"
         if pres["form"] in ("em", "em_df") and (pres["ids"] in ("big17M", "big2p24", "big2p31", "near2p53") or pres["tomo_ids"] == "adjacent_2p24"):
             pres["form"] = "motl" if rng.random() < 0.5 else "df"      # numbers above 2**24 are not float32-exact: no EM-file presentation
         if pres["form"] in ("em", "em_df") and cls.startswith("bound_slivers"):
             pres["form"] = "motl" if v % 2 else "df"                   # float32 files cannot hold a 1e-12 .. 1e-7 sliver
         if pres["form"] in ("em", "em_df"):
             pres["int_ids"] = False
+        if (v + ci) % 3 == 0:
+            # repeated row labels - on DataFrame-typed arguments only (a Motl object keeps its index and cryoCAT's label lookups then raise:
+            # outside the quantifier by the lead's ruling, counted out of domain by the monitor)
+            for w, key in (("entry", "index_e"), ("exit", "index_x")):
+                if _is_df(pres["form"], w, i):
+                    pres[key] = "repeated"
         de, dx = _tables(rng, E, X, tomo_idx, pres)
         Et = {"sub": de["subtomo_id"].to_numpy(float), "tomo": de["tomo_id"].to_numpy(float), "pos": gens.positions(de), "n": len(de)}
         Xt = {"sub": dx["subtomo_id"].to_numpy(float), "tomo": dx["tomo_id"].to_numpy(float), "pos": gens.positions(dx), "n": len(dx)}
@@ -1331,33 +1372,105 @@ def _em_write(path, df):
     files.write_em_raw(path, a.T[:, :, None], code=5)       # EM particle list: x = 20 fields, y = N, z = 1
 
 
-def _wrap(ctx, case, df, which, tag=""):
+def _shape(ctx, case, df, which):
+    """value-preserving re-shaping of one table: integer-typed bookkeeping columns (a table allocated with pd.DataFrame(0, ...)), column order,
+    one consolidated (C / Fortran / read-only) block, DataFrame.attrs"""
+    pres = case["pres"]
+    rng = ctx.rng(case["i"], 7 if which == "entry" else 8)
+    bd = pres["book_dtype"]
+    if bd in ("int64", "int32"):
+        for c in ("geom4", "object_id", "geom2"):
+            df[c] = df[c].astype(bd)
+    elif bd == "int_table":
+        pos = gens.positions(df)
+        df[["x", "y", "z"]] = pos
+        for c in df.columns:
+            if c not in ("x", "y", "z"):
+                df[c] = np.zeros(len(df), dtype=np.int64) if c.startswith("shift") else df[c].astype(np.int64)
+    elif pres["layout"] != "columns" and all(df[c].dtype == np.float64 for c in df.columns):
+        arr = df.to_numpy(dtype=np.float64, copy=True)
+        if pres["layout"] == "fortran_block":
+            arr = np.asfortranarray(arr)
+        if pres["layout"] == "single_block_readonly":
+            arr.setflags(write=False)
+        df = pd.DataFrame(arr, columns=list(df.columns), index=df.index, copy=False)
+    if pres["col_order"] == "reversed":
+        df = df[list(df.columns[::-1])]
+    elif pres["col_order"] == "permuted":
+        df = df[[df.columns[int(k)] for k in rng.permutation(len(df.columns))]]
+    if pres["attrs"]:
+        df.attrs = {"source": "picked %s sites" % which, "pixel_size": 1.35, "list": [1, 2]}
+    return df
+
+
+def _em_path(ctx, case, which, tag):
+    kind, i = case["pres"]["path_kind"], case["i"]
+    base = "%s%s_%d" % (which, tag, i)
+    if kind == "ribosome.em":
+        return os.path.join(ctx.scratch, base + "_ribosome.em")       # stem ends in the letters of the extension
+    if kind == "frame.em":
+        return os.path.join(ctx.scratch, base + "frame.em")
+    if kind == "subdir_special":
+        d = os.path.join(ctx.scratch, "sub dir %d" % i, "t\u00fcb\u00ef")
+        os.makedirs(d, exist_ok=True)
+        return os.path.join(d, "[%s] b*?.em" % base)
+    if kind == "noext":
+        return os.path.join(ctx.scratch, base)
+    if kind == "relative":
+        return "rel_" + base + ".em"                                  # the shard's cwd is its scratch directory
+    return os.path.join(ctx.scratch, base + ".em")
+
+
+def _wrap(ctx, case, df, which, tag="", paths=None):
     """present one table in the case's input form: which = 'entry' | 'exit'"""
     form, cm = case["pres"]["form"], ctx.cm
     df = df.copy()
-    if form == "df":
+    is_file = form == "em" or (form == "em_df" and which == "entry")
+    if is_file:
+        path = _em_path(ctx, case, which, tag)
+        _em_write(path, df)
+        if paths is not None:
+            paths.append(path)
+        if case["pres"]["loader_object"]:
+            obj = cm.Motl.load(path)                    # the very object the loader returned
+            obj.provenance = path
+            return obj
+        return path
+    df = _shape(ctx, case, df, which)
+    if _is_df(form, which, case["i"]):
         return df
-    if form == "motl":
-        return cm.Motl(df)
-    if form == "mixed":
-        as_motl = (which == "exit") == bool(case["i"] % 2)
-        return cm.Motl(df) if as_motl else df
-    if form == "em_df" and which == "exit":
-        return df
-    path = os.path.join(ctx.scratch, "%s%s_%d.em" % (which, tag, case["i"]))
-    _em_write(path, df)
-    return path
+    obj = cm.Motl(df)
+    if case["pres"]["attrs"]:
+        obj.note = "extra attribute carried along"
+    return obj
+
+
+def _scalar(value, style):
+    if style == "np_float64":
+        return np.float64(value)
+    if style == "zero_d":
+        return np.array(float(value))
+    if style == "int_if_integral" and float(value) == int(value):
+        return int(value)
+    if style == "pos_int0":
+        return 0
+    if style == "np_int64":
+        return np.int64(0)
+    if style == "neg_zero":
+        return -0.0
+    return float(value)
 
 
 def _call(ctx, case, a_entry, a_exit, label):
     D, m, pres = case["D"], case["m"], case["pres"]
-    mval = int(0) if pres["int_min"] else m
     fn = ctx.rb.trace_chains                               # looked up at call time: the monitored attribute
-    if pres["min_default"]:
-        return ctx.call(label, fn, a_entry, a_exit, D) if not pres["kw"] else ctx.call(label, fn, motl_entry=a_entry, motl_exit=a_exit, max_distance=D)
-    if pres["kw"]:
-        return ctx.call(label, fn, motl_entry=a_entry, motl_exit=a_exit, max_distance=D, min_distance=mval)
-    return ctx.call(label, fn, a_entry, a_exit, D, mval)
+    Dv = _scalar(D, pres["max_style"])
+    if pres["min_style"] == "omitted":
+        return ctx.call(label, fn, a_entry, a_exit, Dv) if not pres["kw"] else ctx.call(label, fn, motl_entry=a_entry, motl_exit=a_exit, max_distance=Dv)
+    mval = _scalar(m, pres["min_style"])
+    if pres["kw"] or pres["min_style"] == "kw_float0":
+        return ctx.call(label, fn, motl_entry=a_entry, motl_exit=a_exit, max_distance=Dv, min_distance=mval)
+    return ctx.call(label, fn, a_entry, a_exit, Dv, mval)
 
 
 def _drive_checks(ctx, case, res, Et, Xt, cand, n_cand, what):
@@ -1407,9 +1520,12 @@ def _count(ctx, key, n=1):
 
 def run_case(ctx, case):
     D, m = case["D"], case["m"]
-    a_entry = _wrap(ctx, case, case["entry"], "entry")
-    a_exit = _wrap(ctx, case, case["exit"], "exit")
-    paths = [p for p in (a_entry, a_exit) if isinstance(p, str)]
+    paths = []
+    a_entry = _wrap(ctx, case, case["entry"], "entry", "", paths)
+    a_exit = _wrap(ctx, case, case["exit"], "exit", "", paths)
+    _count(ctx, "calls_entry_geom4_integer_typed", int(not isinstance(a_entry, str) and (a_entry if isinstance(a_entry, pd.DataFrame) else a_entry.df)["geom4"].dtype.kind == "i"))
+    _count(ctx, "calls_min0_style_%s" % case["pres"]["min_style"], int(m == 0.0))
+    _count(ctx, "calls_DataFrame_argument_with_repeated_row_labels", int(any(isinstance(a, pd.DataFrame) and not a.index.is_unique for a in (a_entry, a_exit))))
     if not isinstance(a_entry, str) and not isinstance(a_exit, str):
         ie = (a_entry if isinstance(a_entry, pd.DataFrame) else a_entry.df).index
         ix = (a_exit if isinstance(a_exit, pd.DataFrame) else a_exit.df).index
@@ -1446,6 +1562,25 @@ def run_case(ctx, case):
                 _count(ctx, "exact_tie_gadgets_equal", sum(1 for t_ in case["summary"]["gadgets"] if t_.startswith("tie-equal")))
                 _count(ctx, "exact_tie_gadgets_unequal_controls", sum(1 for t_ in case["summary"]["gadgets"] if t_.startswith("tie-") and not t_.startswith("tie-equal")))
         sec = case.get("second")
+        if sec is None and ok and case["pres"]["feed_back"]:
+            # flow: the table trace_chains RETURNED (rows in chain order, bookkeeping filled in, repeated row labels) is the entry list of
+            # another tracing, with the exit list brought into the same row order; judged like a fresh input with the same values
+            rdf = getattr(res, "df", None)
+            row_of = {s_: k for k, s_ in enumerate(case["E"]["sub"].tolist())}
+            if isinstance(rdf, pd.DataFrame) and sorted(rdf["subtomo_id"].tolist()) == sorted(row_of):
+                order = [row_of[s_] for s_ in rdf["subtomo_id"].tolist()]
+                Ef = {"sub": case["E"]["sub"][order], "tomo": case["E"]["tomo"][order], "pos": case["E"]["pos"][order], "n": len(order)}
+                Xf = {"sub": case["X"]["sub"][order], "tomo": case["X"]["tomo"][order], "pos": case["X"]["pos"][order], "n": len(order)}
+                candf = case["cand"][np.ix_(order, order)]
+                xf = case["exit"].iloc[order].copy()
+                if case["pres"]["form"] == "em":
+                    xf = xf.astype(np.float32).astype(np.float64)
+                f_entry = rdf if case["i"] % 2 else ctx.cm.Motl(rdf.reset_index(drop=True))
+                f_exit = xf if case["i"] % 3 else ctx.cm.Motl(xf.reset_index(drop=True))
+                okf, resf = _call(ctx, case, f_entry, f_exit, "trace_chains(returned table fed back)")
+                _count(ctx, "feed_back_calls")
+                if okf:
+                    _drive_checks(ctx, case, resf, Ef, Xf, candf, case["n_cand"], "returned table fed back as entry list")
         if sec is not None:
             # history: a SECOND call in the same process with one list changed, a THIRD with the first lists again; every call is judged
             # against the values its arguments hold at that moment
@@ -1455,9 +1590,7 @@ def run_case(ctx, case):
                 b_entry, b_exit = a_entry, a_exit
                 _count(ctx, "second_calls_after_in_place_modification")
             else:
-                other = _wrap(ctx, case, sec["table"], sec["which"], "2")
-                if isinstance(other, str):
-                    paths.append(other)
+                other = _wrap(ctx, case, sec["table"], sec["which"], "2", paths)
                 b_entry, b_exit = (a_entry, other) if sec["which"] == "exit" else (other, a_exit)
             ok2, res2 = _call(ctx, case, b_entry, b_exit, "trace_chains(second call)")
             _count(ctx, "second_calls")
